@@ -17,6 +17,7 @@ INV_OF = {
     "C08": {"Capacity", "RunningUnderCapacity"},
     "C09": {"IdleTokenIsFull", "deadlock", "Capacity"},
     "C11": {"OneBodyAtATime", "NoBodyAfterDone", "SuccessfulBodyAtMostOnce", "deadlock"},
+    "C10": set(),
 }
 # clauses of the state projection whose disagreement with the specification concerns each property
 CLAUSES_OF = {
@@ -27,10 +28,12 @@ CLAUSES_OF = {
     "C08": {"avail", "insts.held"},
     "C09": {"avail", "insts.held", "ready", "insts.ev", "insts.dstat", "insts.unsat"},
     "C11": {"world", "phase", "insts.domain", "insts.state", "insts.result", "failed"},
+    "C10": {"world"},      # the scheduler's side of the job directory: lock held over spawn + pid file, markers, pid file
 }
 FAMILIES = {
     "C04": ["dag"], "C05": ["sub", "restart"], "C06": ["dag", "tok", "sub", "stop"], "C07": ["dag"],
     "C08": ["tok"], "C09": ["tok"], "C11": ["restart", "stop"],
+    "C10": [],
 }
 PLAN_FILTER = {
     "C04": lambda n: n.startswith(("chain", "fork", "join", "diamond", "tok-dep", "tok-big", "tok3", "late", "resubmit-dep",
@@ -41,6 +44,7 @@ PLAN_FILTER = {
     "C08": lambda n: n.startswith(("tok", "kill-restart-tok", "startfail-tok")),
     "C09": lambda n: n.startswith(("tok", "kill-restart-tok", "startfail-tok")),
     "C11": lambda n: n.startswith(("rerun", "kill", "stop")),
+    "C10": lambda n: n.startswith(("chain2-direct", "kill-restart", "startfail", "oom", "resubmit")),
 }
 TINY = {
     "one": P({"a": {}}, [["submit", "a"], ["wait"]]),
@@ -55,6 +59,7 @@ DFS_PLANS = {
     "C08": ["one-tok", "tok1-2", "tok-big"],
     "C09": ["one-tok", "tok1-2", "tok-big"],
     "C11": ["rerun-done"],
+    "C10": ["one", "one-fail"],
 }
 
 
@@ -146,7 +151,7 @@ def nontrivial(result):
 
 # ---------------------------------------------------------------- the check
 def run(prop, tier, replay=None, rep=None, finish=True):
-    rep = rep or Report(prop, tier, "fault_enumeration" if prop == "C11" else "model_checking")
+    rep = rep or Report(prop, tier, "fault_enumeration" if prop in ("C10", "C11") else "model_checking")
     rep.assumptions += [
         "E1: helper threads, job processes and the main thread are scheduled by the engine; loop callbacks run in "
         "FIFO order as in asyncio; job processes follow the TaskRunner protocol as simulated by the engine "
